@@ -228,6 +228,11 @@ func runC17(c *Ctx) {
 			got[t][rc.Value] = true
 		}
 	}
+	// strconv.FormatBool(b) is exactly `if b { "true" } else { "false" }`
+	if got["ValueBool"]["strconv.FormatBool(*v.Bool)"] {
+		delete(got["ValueBool"], "strconv.FormatBool(*v.Bool)")
+		got["ValueBool"][`"true"`], got["ValueBool"][`"false"`] = true, true
+	}
 	wantArms := map[string][]string{
 		"ValueNum":  {"strconv.FormatFloat(*v.Num, 102, -1, 64)"},
 		"ValueStr":  {`(("\"" + *v.Str) + "\"")`, "*v.Str"},
@@ -245,6 +250,15 @@ func runC17(c *Ctx) {
 	}
 	// quoting follows the quote parameter; booleans follow the payload
 	for _, rc := range p.successResults(pr) {
+		if rc.Value == `"true"` || rc.Value == `"false"` {
+			follows := false
+			for f := range FactsOf(pr).At(rc.Ret.Block()) {
+				if p.Render(f.cond) == "*v.Bool" && f.truth == (rc.Value == `"true"`) {
+					follows = true
+				}
+			}
+			c.check(follows, "R2", "boolean-text "+rc.Value, p.InstrPos(rc.Ret), "the text follows the payload", "the boolean text "+rc.Value+" is not returned under the payload having that truth value")
+		}
 		if rc.Value == "*v.Str" || rc.Value == `(("\"" + *v.Str) + "\"")` {
 			known, val := FactsOf(pr).At(rc.Ret.Block()).Truth(pr.Params[2])
 			c.check(known && val == (rc.Value != "*v.Str"), "R2", "string-quoting "+rc.Value, p.InstrPos(rc.Ret), "quoted exactly when the quote flag is set", "string quoting does not follow the quote parameter")
